@@ -31,6 +31,8 @@ M = [
     ("element-iv-no-upper-clamp", "nucs/propagators/element_iv_propagator.py", "    i[MAX] = min(i[MAX], len(l) - 1)\n", "    i[MAX] = min(i[MAX], len(l))\n", ["C16", "C05"]),
     ("mp-blocking-get", "nucs/solvers/multiprocessing_solver.py", "            return solutions.get(timeout=QUEUE_TIMEOUT)\n        except Empty:\n            terminated = [", "            return solutions.get()\n        except Empty:\n            terminated = [", ["C18"]),
     ("mp-liveness-ignores-completed", "nucs/solvers/multiprocessing_solver.py", "                if not completed[proc_idx] and not process.is_alive()", "                if completed[proc_idx] and not process.is_alive()", ["C18"]),
+    ("no-stack-check", "nucs/solvers/backtrack_solver.py", "        if stacks_top[0] + 2 >= len(shr_domains_stack):\n", "        if False and stacks_top[0] + 2 >= len(shr_domains_stack):\n", ["C19"]),
+    ("stack-check-off-by-some", "nucs/solvers/backtrack_solver.py", "        if stacks_top[0] + 2 >= len(shr_domains_stack):\n", "        if stacks_top[0] >= len(shr_domains_stack):\n", ["C19"]),
     ("exactly-eq-entail-early", "nucs/propagators/exactly_eq_propagator.py", None, None, []),
     ("max-regret-first-tie", "nucs/heuristics/max_regret_var_heuristic.py", "    max_regret = -1  #", "    max_regret = 0  #", ["C04"]),
     ("split-capping", "nucs/problems/problem.py", "        split_nb = min(split_nb, shr_dom_sz)  # a domain cannot be split in more parts than it has values\n", "", ["C12"]),
